@@ -191,6 +191,9 @@ def run(tier):
         except Exception:  # noqa: BLE001
             continue
         add("rootlist:%d" % j, d1, "rootlist", text)
+    # every string over the alphabet of spec/Quoting.tla, both quotes, every kind of string slot
+    from .. import quoting
+    quoting.run(ck, "C01", tier, loads, impl.dumper)
     verdicts = tracecheck.validate("TraceRoundTrip", records, "c01", ck=ck, chunk=800, canary=canary)
     skipped = 0
     for tid, v in verdicts.items():
